@@ -50,9 +50,14 @@ func runAtomic() {
 		for c := 0; c < fThreads; c++ {
 			fs.Mkdir(fmt.Sprintf("d%d", c))
 		}
+		linked := map[string]string{} // dir/name-l -> the data the link must keep showing
 		for c := 0; c < fThreads; c++ {
 			d, n := target(c)
 			fs.AtomicCreate(d, n, []byte(payload(c, 0, 1)))
+			// a hard link to the first version: AtomicCreate re-points the name, it must not touch the old file
+			if _, done := linked[d+"/"+n+"-l"]; !done && fs.Link(d, n, d, n+"-l") {
+				linked[d+"/"+n+"-l"] = payload(c, 0, 1)
+			}
 		}
 		valid := func(c int, s string) bool { // is s a complete payload written to client c's target?
 			if fMode == "same" {
@@ -121,11 +126,20 @@ func runAtomic() {
 								report(fmt.Sprintf("reader of %s/%s panicked: %v", d, n, e))
 							}
 						}()
+						// one descriptor designates one version of the file: read it in two pieces
 						f := fs.Open(d, n)
-						s := string(fs.ReadAt(f, 0, 1<<20))
+						s := string(fs.ReadAt(f, 0, 24)) + string(fs.ReadAt(f, 24, 1<<20))
 						fs.Close(f)
 						if !valid(c, s) {
-							report(fmt.Sprintf("reader saw %s/%s = %q… (%d bytes): not the complete data of any AtomicCreate for that name", d, n, clip(s), len(s)))
+							report(fmt.Sprintf("reader saw %s/%s = %q… (%d bytes, read in two pieces through one descriptor): not the complete data of any AtomicCreate for that name", d, n, clip(s), len(s)))
+						}
+						if want, ok := linked[d+"/"+n+"-l"]; ok {
+							g := fs.Open(d, n+"-l")
+							ls := string(fs.ReadAt(g, 0, 1<<20))
+							fs.Close(g)
+							if ls != want {
+								report(fmt.Sprintf("the hard link %s/%s-l to the first version changed: %q… (%d bytes)", d, n, clip(ls), len(ls)))
+							}
 						}
 					}()
 				}
